@@ -77,6 +77,8 @@ fn main() {
     let code = match (id.as_str(), replay) {
         ("C01", None) => props::c01::run(&ctx),
         ("C01", Some(p)) => props::c01::replay(&p),
+        ("C02", None) => props::c02::run(&ctx),
+        ("C02", Some(p)) => props::c02::replay(&p),
         ("C03", None) => props::c03::run(&ctx),
         ("C03", Some(p)) => props::c03::replay(&p),
         ("C04", None) => props::c04::run(&ctx),
